@@ -404,6 +404,10 @@ func genOnce(r *Rand, pkg string, prof Profile) *Spec {
 			if r.Chance(1, 3) {
 				// the constant lives in a package-level variable named like the local the generator would pick
 				v.VarRef = lowerFirst(g.sp.Types[vt].Name)
+				switch v.VarRef {
+				case "context", "kessoku", "simrt", "ttemplate", "htemplate", "mrand", "mrand2", "string", "int", "error":
+					v.VarRef = "" // would collide with an import of the package's own files
+				}
 			}
 			g.sp.Providers = append(g.sp.Providers, v)
 			g.avail = append(g.avail, vt)
